@@ -96,7 +96,7 @@ def run(prop, tier):
             v.violation(f"(overflow of a worker's finding list: {out['more']} more)", {}, ["overflow"])
         for m, d in out["drift"]:
             v.model_drift(m, d)
-    if tot["toms_calls"] == 0 or tot["grid_calls"] == 0 or tot["stub_evals"] == 0:
+    if not v.violations and not v.known_hits and (tot["toms_calls"] == 0 or tot["grid_calls"] == 0 or tot["stub_evals"] == 0):
         raise Machinery(f"C09 replay is vacuous: {tot}")
     for ln in cases[:2]:
         d = json.loads(ln)
